@@ -112,7 +112,7 @@ def finish(prop, out, key, index, tier, case, fingerprint, sample=None, n=1):
     return Case(out, fp, n, dict(case=case, key=key, index=index, tier=tier), sample)
 
 
-def build_flat(req, cls, hashes, forever=(), nested=None):
+def build_flat(req, cls, hashes, forever=(), nested=None, foreign=True):
     """one scheduler whose members are n0..nk with requirement map req;
     `nested` maps some indices to 'empty' / 'full': those members are nestable
     Scheduler objects (an empty one is falsy: len() == 0) instead of plain jobs"""
@@ -128,7 +128,7 @@ def build_flat(req, cls, hashes, forever=(), nested=None):
     for a, bs in req.items():
         for b in bs:
             jobs[a].required.add(jobs[b])      # raw edge: self-loops allowed here on purpose
-    for i in nested:
+    for i in (nested if foreign else ()):
         # a job inside a nested member requiring a member of the enclosing
         # scheduler: not a requirement *between members*, queries must ignore it
         for inner_job in jobs[i]._inner:
@@ -253,11 +253,18 @@ def c15_exhaustive(prop, key, index, tier):
         forever = {i for i in range(n) if rng.random() < 0.3}
         if forever:
             out.count('graphs with forever jobs')
-        sched, jobs = build_flat(req, cls, hashes, forever=forever)
+        # some nodes are nested schedulers rather than plain jobs; an empty
+        # one is falsy (len() == 0) and still a node like any other
+        nested = {i: rng.choice(['empty', 'empty', 'full']) for i in range(n) if rng.random() < 0.25}
+        if any(v == 'empty' for v in nested.values()):
+            out.count('graphs in which a node is an empty nested scheduler')
+            if any(nested.get(b) == 'empty' for bs in req.values() for b in bs):
+                out.count('  ... that some node requires')
+        sched, jobs = build_flat(req, cls, hashes, forever=forever, nested=nested, foreign=False)
         if rng.random() < 0.15:
             sched.verbose = True
-        where = "%s%s hashes=%s forever=%s" % (cls.__name__, {k: sorted(v) for k, v in req_names.items()}, hashes,
-                                               sorted(forever))
+        where = "%s%s hashes=%s forever=%s nested=%s" % (cls.__name__, {k: sorted(v) for k, v in req_names.items()},
+                                                         hashes, sorted(forever), nested)
         got = _topo_checks(out, sched, req_names, member_names, acyclic, where)
         if got is not None and got is not acyclic:
             out.violation('check_cycles-wrong', "%s: check_cycles() returned %r, the graph is %s"
@@ -314,6 +321,9 @@ def c15_tree(prop, key, index, tier):
 
     def mk(level, cyclic):
         n = rng.randint(1, 12 if level == 0 else 6)
+        if level > 0 and not cyclic and rng.random() < 0.15:
+            n = 0
+            out.count('empty nested schedulers in the tree')
         req = random_digraph(rng, n, cyclic)
         jobs = {}
         # one or two nested schedulers per level: the planted cycle goes down one branch only
@@ -382,12 +392,33 @@ def c15_history(prop, key, index, tier):
     rng.shuffle(hashes)
     cls = rng.choice([P, S])
     sched, jobs = build_flat(req, cls, hashes)
+    # half of the nestable ones live inside an enclosing scheduler for the whole
+    # history: what is asked of the scheduler is asked of its ancestor too
+    outer = None
+    if cls is S and rng.random() < 0.5:
+        outer = S("OUTER", 1, sched, N("side", 2))
+        if rng.random() < 0.5:
+            outer = S("OUTERMOST", 1, outer)
+        out.count('histories under an enclosing scheduler')
     flips = 0
     prev = True
     steps = []
     for step in range(rng.randint(4, 12)):
         r = rng.random()
-        if r < 0.12:
+        if r < 0.10 and prev and 'run()' not in steps:
+            # a completed run (state left behind: tasks, results) before the next edits
+            import asyncio
+            loop = asyncio.new_event_loop()
+            try:
+                with contextlib.redirect_stdout(io.StringIO()):
+                    loop.run_until_complete(asyncio.wait_for((outer or sched).co_run(), 60))
+                steps.append('run()')
+                out.count('completed runs before asking again')
+            except BaseException as exc:                # noqa
+                out.count('harness: run failed: %s' % type(exc).__name__)
+            finally:
+                loop.close()
+        elif r < 0.20:
             buf = io.StringIO()
             try:
                 with contextlib.redirect_stdout(buf):
@@ -396,7 +427,7 @@ def c15_history(prop, key, index, tier):
                 out.count('list_safe() calls before asking again')
             except BaseException as exc:                # noqa
                 out.violation('list_safe-raised', "list_safe() raised %r" % (exc,))
-        elif r < 0.24:
+        elif r < 0.30 and outer is None:
             # regroup: the same jobs, a new scheduler object
             members = list(sched.jobs)
             rng.shuffle(members)
@@ -424,6 +455,12 @@ def c15_history(prop, key, index, tier):
             out.violation('check_cycles-wrong-after-edit', "%s: check_cycles() returned %r, the graph is %s"
                           % (where, got, 'acyclic' if acyclic else 'cyclic'))
         _own_level_order(out, sched, req_names, sorted(req_names), acyclic, where)
+        if outer is not None:
+            out.count('questions asked of an ancestor as well')
+            got = _topo_checks(out, outer, None, None, None, where + " (asked of %s)" % outer.name)
+            if got is not None and got is not acyclic:
+                out.violation('check_cycles-wrong-tree', "%s: %s.check_cycles() returned %r, the nested graph is %s"
+                              % (where, outer.name, got, 'acyclic' if acyclic else 'cyclic'))
         if acyclic and rng.random() < 0.3:
             _list_ids(out, sched, where)
         if acyclic and rng.random() < 0.15 and isinstance(sched, S):
@@ -521,6 +558,18 @@ def c16_tree(prop, key, index, tier):
             for j in list(s_.jobs)[:2]:
                 list(s_.successors(j))
         out.count('trees queried (reverse links computed) before sanitize()')
+    if rng.random() < 0.35 and atoms:
+        # history: plain jobs leave their scheduler (remove()), for a spare
+        # scheduler or for none; they are no longer part of the tree, what the
+        # others still require of them has become dangling
+        spare = S("SPARE", 3)
+        for j in rng.sample(atoms, min(len(atoms), rng.randint(1, 2))):
+            member_of[j].remove(j)
+            if rng.random() < 0.5:
+                spare.add(j)
+            del member_of[j]
+            jobs.remove(j)
+        out.count('trees from which jobs were taken out with remove() first')
     rounds = 2 if rng.random() < 0.5 else 1
     for rnd in range(rounds):
         if rnd:
@@ -570,7 +619,7 @@ def c16_tree(prop, key, index, tier):
 
 
 # ------------------------------------------------------------------ C17
-def _check_queries(out, sched, req, members, forever, starts_list, where, exits_first=False):
+def _check_queries(out, sched, req, members, forever, starts_list, where, exits_first=False, budget=None):
     """req/members/forever are name-level truth; sched is the live object"""
     by = {j.name: j for j in sched.jobs}
     if set(by) != set(members):
@@ -596,7 +645,16 @@ def _check_queries(out, sched, req, members, forever, starts_list, where, exits_
         for meth, want in exp.items():
             out.count('neighbour/closure queries compared')
             try:
-                got = list(getattr(sched, meth)(*objs))
+                if budget:
+                    with line_budget(budget) as spent:
+                        got = list(getattr(sched, meth)(*objs))
+                    out.count('queries answered under a budget of logical steps')
+                    out.count('  ... library lines they executed', spent[0])
+                else:
+                    got = list(getattr(sched, meth)(*objs))
+            except BudgetExceeded as exc:
+                out.violation('query-no-answer', "%s: %s(%s) gave no answer: %s" % (where, meth, sorted(starts)[:3], exc))
+                continue
             except BaseException as exc:                # noqa
                 out.violation('query-raised', "%s: %s(%s) raised %r" % (where, meth, sorted(starts), exc))
                 continue
@@ -833,6 +891,64 @@ def c17_random(prop, key, index, tier):
     out.nontrivial = True
     return finish(prop, out, key, index, tier, 'c17_random', (key,),
                   dict(requires={k: sorted(v) for k, v in req.items()}, edits=log))
+
+
+def large_dag(rng):
+    """requirement maps with 40-150 nodes in which the number of *paths* is
+    astronomically larger than the number of nodes"""
+    kind = rng.choice(['diamonds', 'layers', 'ladder', 'sparse'])
+    req = {}
+    if kind == 'diamonds':
+        k = rng.randint(13, 49)
+        req[0] = set()
+        for d in range(k):
+            a, b, c, e = 3 * d, 3 * d + 1, 3 * d + 2, 3 * d + 3
+            req[b], req[c], req[e] = {a}, {a}, {b, c}
+    elif kind == 'layers':
+        w, depth = rng.choice([(2, 30), (3, 25), (4, 20), (5, 15)])
+        for lay in range(depth):
+            for i in range(w):
+                req[lay * w + i] = set(range((lay - 1) * w, lay * w)) if lay else set()
+    elif kind == 'ladder':
+        k = rng.randint(20, 70)
+        for i in range(k):
+            req[2 * i] = {2 * i - 2, 2 * i - 1} if i else set()
+            req[2 * i + 1] = {2 * i - 2, 2 * i - 1} if i else set()
+    else:
+        n = rng.randint(60, 150)
+        for i in range(n):
+            req[i] = {j for j in range(max(0, i - 6), i) if rng.random() < 0.5}
+    # relabel at random: nothing depends on creation order
+    perm = list(req)
+    rng.shuffle(perm)
+    return kind, {perm[a]: {perm[b] for b in bs} for a, bs in req.items()}
+
+
+def c17_large(prop, key, index, tier):
+    """the same questions on large graphs, each under a budget of logical
+    steps (library lines executed) that the linear algorithms stay far below:
+    an answer that does not come is a wrong answer"""
+    out = Out(prop)
+    rng = random.Random(key)
+    kind, base = large_dag(rng)
+    n = len(base)
+    req = {"n%d" % a: {"n%d" % b for b in bs} for a, bs in base.items()}
+    members = set(req)
+    forever = {a for a in members if rng.random() < 0.1}
+    hashes = [rng.randrange(256) for _ in range(n)]
+    cls = rng.choice([P, S])
+    sched, jobs = build_flat(base, cls, hashes, forever={int(a[1:]) for a in forever})
+    mem = sorted(members)
+    up = R.closure(req, members)
+    deepest = max(mem, key=lambda a: len(up[a]))
+    shallowest = min(mem, key=lambda a: len(up[a]))
+    starts_list = [{deepest}, {shallowest}] + [{a} for a in rng.sample(mem, 3)] + [set(rng.sample(mem, 3))]
+    out.count('large DAGs (%s)' % kind)
+    out.count('  ... jobs in them', n)
+    _check_queries(out, sched, req, members, forever, starts_list, "%s %s with %d jobs" % (cls.__name__, kind, n),
+                   exits_first=rng.random() < 0.5, budget=2_000_000)
+    out.nontrivial = True
+    return finish(prop, out, key, index, tier, 'c17_large', (key,), dict(kind=kind, jobs=n))
 
 
 def c17_iterate(prop, key, index, tier):
@@ -1498,6 +1614,7 @@ CASES = {
     'c15_exhaustive': c15_exhaustive, 'c15_tree': c15_tree, 'c15_history': c15_history,
     'c16_tree': c16_tree,
     'c17_exhaustive': c17_exhaustive, 'c17_random': c17_random, 'c17_iterate': c17_iterate,
+    'c17_large': c17_large,
     'c18_exhaustive': c18_exhaustive, 'c18_history': c18_history,
     'c19_program': c19_program,
 }
